@@ -396,3 +396,15 @@ let segs_of (impl : string) : zout list list =
           | e -> (ZOut (ev_of e) :: cur, acc)) ([], []) l in
       if cur <> [] then failwith "unterminated segment" else List.rev acc
   | _ -> []
+
+let rec pipe_of (s : sexp) : pipe =
+  let a = args s in
+  match head s with
+  | "hot" -> PHot (narg (List.hd a))
+  | "cold" -> PCold (List.map ev_of a)
+  | "src" -> PSrc (src_of (List.hd a))
+  | "chain" -> PChain (pipe_of (List.nth a 0), expand_all (List.map uop_of (args (List.nth a 1))))
+  | "op2" -> POp2 (op2_of (List.nth a 0), pipe_of (List.nth a 1), pipe_of (List.nth a 2))
+  | h -> failwith ("bad pipe " ^ h)
+
+let stim_of (s : sexp) : nat * ev = (nat_of_int (int_of_string (head s)), ev_of (List.hd (args s)))
